@@ -1412,6 +1412,8 @@ class Stage:
 
     def clone(self, parent, **kwargs):
         assert self._is_original
+        if len(self._stages)>0:
+            raise Exception("Cloning a stage that has sub-stages is not supported (the sub-stages would be lost)")
         ret = Stage(parent, **kwargs)
         from copy import copy, deepcopy
 
